@@ -64,6 +64,9 @@ pub struct NodeDesc {
     pub arms: Option<Rc<Vec<Expr>>>,
     pub cutoff: CutKind,
     pub writes: Vec<WriteSpec>,
+    /// nodes and vars the node's closure keeps alive (bind closures own the environment of
+    /// the whole top-level expression they were written in)
+    pub env_refs: Vec<Tag>,
 }
 
 #[derive(Clone, Copy, Debug, PartialEq, Eq, Hash)]
